@@ -132,16 +132,23 @@ type GenOpts struct {
 	// lookups are not keyed by source: equal addresses on two chains would make
 	// the intended rows of one source depend on the progress of the other)
 	AddrBase int `json:"-"`
+	// ForkIsolated: transfers on a replacement fork use only addresses created
+	// below the fork point (or never created): what a dependent derives from a
+	// block then does not depend on whether its reference has already replaced
+	// its own rows of the orphaned blocks
+	ForkIsolated bool
 }
 
 // GenState tracks what the generator has handed out along one fork.
 type GenState struct {
 	Created [][]byte // addresses created so far on this fork (ascending block order)
 	nextNew int
+	// pickable: how many of Created a transfer may use as sender (-1 = all)
+	pickable int
 }
 
 func (s *GenState) clone() *GenState {
-	return &GenState{Created: append([][]byte{}, s.Created...), nextNew: s.nextNew}
+	return &GenState{Created: append([][]byte{}, s.Created...), nextNew: s.nextNew, pickable: s.pickable}
 }
 
 // GenBlock creates block num on fork tag.
@@ -187,8 +194,12 @@ func GenBlock(r *lib.RNG, tag int, num uint64, parent []byte, o GenOpts, st *Gen
 				if o.Decoys && r.Intn(4) == 0 {
 					l.Addr = OtherAddr
 				}
-				if o.Created && len(st.Created) > 0 && r.Bool() {
-					l.From = st.Created[r.Intn(len(st.Created))]
+				npick := len(st.Created)
+				if st.pickable >= 0 && st.pickable < npick {
+					npick = st.pickable
+				}
+				if o.Created && npick > 0 && r.Bool() {
+					l.From = st.Created[r.Intn(npick)]
 				} else {
 					l.From = Addr(1 + r.Intn(6)) // never created
 				}
@@ -221,7 +232,7 @@ type History struct {
 // NewHistory creates version 1 with blocks 0..head.
 func NewHistory(r *lib.RNG, head int, o GenOpts) *History {
 	h := &History{Opts: o, nextTag: 1}
-	st := &GenState{}
+	st := &GenState{pickable: -1}
 	c := &Chain{Ver: 1}
 	var parent []byte = make([]byte, 32)
 	parent[0] = 0x99
@@ -265,7 +276,7 @@ func (h *History) Reorg(r *lib.RNG, fork uint64, newLen int) *Chain {
 	h.nextTag++
 	tag := h.nextTag
 	// generator state of the common prefix: recompute the created set
-	st := &GenState{nextNew: h.states[len(h.states)-1].nextNew}
+	st := &GenState{nextNew: h.states[len(h.states)-1].nextNew, pickable: -1}
 	for _, b := range prev.Blocks[:fork] {
 		for _, tx := range b.Txs {
 			for _, l := range tx.Logs {
@@ -274,6 +285,9 @@ func (h *History) Reorg(r *lib.RNG, fork uint64, newLen int) *Chain {
 				}
 			}
 		}
+	}
+	if h.Opts.ForkIsolated {
+		st.pickable = len(st.Created) // only addresses created below the fork point
 	}
 	c := &Chain{Ver: len(h.Versions) + 1, Blocks: append([]*Block{}, prev.Blocks[:fork]...)}
 	for i := 0; i < newLen; i++ {
